@@ -36,7 +36,7 @@ def judge(prog, events, ans):
 def cases_for(run):
     rng = run.rng
     cases = []
-    n = 220 if run.tier == "quick" else 6000
+    n = 220 if run.tier == "quick" else 2500
     strategies = ["drop", "error", "oldest", "least", ("sample", 1, 2), ("sample", 1, 4), ("sample", 1, 1), ("sample", 0, 1)]
     for i in range(n):
         prog = S.gen_prog(rng, allow_all=(i % 3 == 0), allow_self=(i % 6 == 0))
